@@ -398,6 +398,28 @@ func c10(r *core.Run) {
 					delOK = false
 					why = "the delete action is stored outside the not-present edge of the lookup in the new map"
 				}
+				// whether keys were removed cannot be decided from the size of the new map: an edge testing
+				// len(<new map>) above the scan skips removed keys whenever as many keys were added
+				for _, ed := range dominatingEdges(mu) {
+					cnd, _ := ed.Norm()
+					bo, ok := cnd.(*ssa.BinOp)
+					if !ok {
+						continue
+					}
+					for _, side := range []ssa.Value{bo.X, bo.Y} {
+						if lc, ok := side.(*ssa.Call); ok && core.CalleeName(lc) == "builtin:len" {
+							for _, ed2 := range dominatingEdges(mu) {
+								c2, _ := ed2.Norm()
+								if ex, ok := c2.(*ssa.Extract); ok {
+									if lk, ok := ex.Tuple.(*ssa.Lookup); ok && sameRoot(lk.X, lc.Call.Args[0]) {
+										delOK = false
+										why = "the scan for removed keys only runs under a test of the new map's size (" + describeCond(ed) + "): a write that removes keys and adds at least as many reports no delete action"
+									}
+								}
+							}
+						}
+					}
+				}
 				continue
 			}
 			nSet++
